@@ -366,11 +366,11 @@ PROPS["C12"] = dict(
           "sender hands the calculator (whole PDU, protocol type, 2 + written label + PDU, label as written) once per first fragment and puts its result big-endian at the "
           "end of the end fragment; the receiver hands it (reassembled bytes, first fragment's fields, no label after re-use).",
     note="Trusted: Kani/CBMC/CaDiCaL. Lengths beyond the differential bound follow from (a)+(b) by induction over Iterator::fold — an argument about the fold, not a solver result.",
-    harnesses=[H("c12::header_prefix", bounds="all 2^32 (total length, protocol type) pairs", unwind=4, cost=15),
-               H("c12::byte_step_pdu", bounds="all (total length, protocol type, byte) triples", unwind=4, cost=15),
-               H("c12::byte_step_label", bounds="all (total length, protocol type, byte) triples", unwind=4, cost=15),
+    harnesses=[H("c12::header_prefix", bounds="all 2^32 (total length, protocol type) pairs", unwind=12, cost=15),
+               H("c12::byte_step_pdu", bounds="all (total length, protocol type, byte) triples", unwind=12, cost=15),
+               H("c12::byte_step_label", bounds="all (total length, protocol type, byte) triples", unwind=12, cost=15),
                H("c12::differential", bounds="label length 0/3/6, PDU length 0..=8 (thorough 24), all bytes", unwind=26, cost=60, timeout=900),
-               H("c12::check_value", bounds="catalogue check string 123456789", unwind=5, cost=5),
+               H("c12::check_value", bounds="catalogue check string 123456789", unwind=12, cost=5),
                H("c12::sender_wiring", bounds="PDU <= 12, buffer <= 24, any label / sender state; RecCrc records the call", unwind=8, cost=30),
                H("c06::encap_frag_bytes", bounds=BYTE_TIER + " (CRC trailer = context CRC, big endian, last four bytes)", cost=10, timeout=600),
                T("c12::twin_byte_step", cost=2)] + rx_members(["end_match", "end_match_ext"], whole_family=False),
